@@ -1,5 +1,6 @@
 #!/bin/sh
 # Build the Lean project (model, proofs, driver) and the Rust harness. Offline.
 set -e
-cd /verif/lean && lake build LoomVerif lvdriver
-cd /verif/harness && CARGO_NET_OFFLINE=true cargo build --release --offline
+HERE=$(cd "$(dirname "$0")" && pwd)
+cd "$HERE/lean" && lake build LoomVerif lvdriver
+cd "$HERE/harness" && CARGO_NET_OFFLINE=true CARGO_TARGET_DIR="$HERE/.build/harness-target" cargo build --release --offline
